@@ -438,6 +438,13 @@ package dht
 //@   ensures nodes-only-for-ipv4-requesters: queryMsg.A != nil && !wants4(queryMsg.A.Want, querySource.IP()) ==> r.Nodes == old(r.Nodes)
 //@   ensures nodes6-only-for-ipv6-requesters: queryMsg.A != nil && !wants6(queryMsg.A.Want, querySource.IP()) ==> r.Nodes6 == old(r.Nodes6)
 //@   ensures two-lookups-at-most: count("call:(*dht.Server).makeReturnNodes") <= 2
+//@   callsite (*dht.Server).makeReturnNodes a-table-walk-of-its-own-per-family: $filter == fn("(*dht.Server).setReturnNodes$1") || $filter == fn("(*dht.Server).setReturnNodes$2")
+//@   callsite (*dht.Server).makeReturnNodes the-ipv4-walk-for-requesters-that-want-ipv4: $filter == fn("(*dht.Server).setReturnNodes$1") ==> wants4(queryMsg.A.Want, querySource.IP()) && count("call:(*dht.Server).makeReturnNodes") == 0
+//@   callsite (*dht.Server).makeReturnNodes the-ipv6-walk-for-requesters-that-want-ipv6: $filter == fn("(*dht.Server).setReturnNodes$2") ==> wants6(queryMsg.A.Want, querySource.IP())
+//@   ensures a-full-table-walk-for-each-family-wanted: queryMsg.A != nil && wants4(queryMsg.A.Want, querySource.IP()) && wants6(queryMsg.A.Want, querySource.IP()) ==> count("call:(*dht.Server).makeReturnNodes") == 2
+//@   ensures one-table-walk-if-one-family-is-wanted: queryMsg.A != nil && wants4(queryMsg.A.Want, querySource.IP()) != wants6(queryMsg.A.Want, querySource.IP()) ==> count("call:(*dht.Server).makeReturnNodes") == 1
+//@   ensures nodes6-is-the-ipv6-walk: queryMsg.A != nil && wants6(queryMsg.A.Want, querySource.IP()) ==> r.Nodes6 == recorded("returnnodes")
+//@   ensures nodes-is-the-ipv4-walk-when-it-is-the-only-one: queryMsg.A != nil && wants4(queryMsg.A.Want, querySource.IP()) && !wants6(queryMsg.A.Want, querySource.IP()) ==> r.Nodes == recorded("returnnodes")
 
 // passes(f, n): what the filter callback f answers for node n (callbacks are assumed to be functions of the node for the
 // duration of one call of closestNodes)
